@@ -1,6 +1,7 @@
 import AcraModel.Props.C12
 import AcraModel.Props.C03
 import AcraModel.Props.C10
+import AcraModel.Sql.MysqlComment
 /-!
 # C14 — no input can crash a handler or make it consume unbounded resources
 
@@ -73,6 +74,38 @@ theorem onColumn_output_bounded (cbs : List Callback) (B : Nat)
 generator used to slice with a negative bound for values shorter than a TLD). -/
 theorem token_generator_no_panic (ty : Token.TokenType) (n : Nat) (d : Token.Draws) : Token.genToken ty n d ≠ .panic :=
   C10.generator_never_panics ty n d
+
+/-! ## records read back from the token store (proved in `Props/C10.lean`) -/
+
+/-- `decodeInt32` / `decodeInt64` / `bytesToGolangValue` on ANY stored payload, and the `t.`-record path of
+`Deanonymize` on any record: value or error, never a panic (a short stored integer used to crash
+`binary.LittleEndian.Uint32/64`). -/
+theorem decode_record_no_panic (ty : Token.TokenType) (data : Bytes) :
+    Token.decodeAs ty data ≠ .panic ∧ Token.decTV ty data ≠ .panic := C10.decode_record_no_panic ty data
+
+/-! ## MySQL version comments (`sqlparser.ExtractMysqlComment`, called by the tokenizer on client SQL) -/
+
+/-- `sqlparser/comments.go`: `ExtractMysqlComment` cuts 3 + 2 bytes (`/*!`, `*/` – what the tokenizer
+guarantees to be there) and handles "nothing follows the version digits" before slicing. (How many version
+digits it takes is not needed for the claim; the model reads that bound from the source.) -/
+theorem fact_mysql_comment :
+    Generated.SqlComment.cutFront = 3 ∧ Generated.SqlComment.cutBack = 2 ∧
+    Generated.SqlComment.noTextGuard = true := by decide
+
+/-- **No complete version comment makes `ExtractMysqlComment` panic** (ASCII model): the tokenizer
+calls it with `/*!` … `*/`, i.e. at least 5 bytes; `/*!123*/`, `/*!*/`, `/*!12345*/` used to slice `sql[0:-1]`. -/
+theorem extract_mysql_comment_no_panic (c : Bytes) (h : 5 ≤ c.length) : Sql.MysqlComment.extract c ≠ .panic := by
+  have hg : Generated.SqlComment.noTextGuard = true := by decide
+  unfold Sql.MysqlComment.extract
+  rw [hg]
+  exact Sql.MysqlComment.extractWith_guard_no_panic c (by
+    have : Generated.SqlComment.cutFront + Generated.SqlComment.cutBack = 5 := by decide
+    omega)
+
+/-- The pinned tree (no guard): `/*!123*/` panics. -/
+theorem legacy_mysql_comment_counterexample :
+    Sql.MysqlComment.extractWith false [47, 42, 33, 49, 50, 51, 42, 47] = .panic ∧
+    Sql.MysqlComment.extractWith true [47, 42, 33, 49, 50, 51, 42, 47] = .ok ([49, 50, 51], []) := by decide
 
 /-! ## wire readers and rewriters (proved in `Props/C12.lean`; statements are taken over verbatim) -/
 
